@@ -1054,6 +1054,10 @@ func ruleA8(c *Ctx) {
 		sides int
 	}
 	var sinks []sink
+	a8IntBits = 64
+	if c.Pkg.TypesSizes != nil {
+		a8IntBits = c.Pkg.TypesSizes.Sizeof(types.Typ[types.Int]) * 8
+	}
 	for _, fn := range c.SrcFuncs() {
 		if why := a8OutOfScope(c, fn); why != "" {
 			c.S.Trivial("A8-bounds", fnName(fn)+":out-of-scope", c.Pos(fn.Pos()), "not analysed: "+why)
@@ -1160,6 +1164,8 @@ func ruleA8(c *Ctx) {
 
 // excludesMin: on the way to blk a test of v (through conversions; two loads of one address count as one value) against
 // a constant leaves out the smallest integer: `v == MinInt` / `v != MinInt` on the right edge, or v >= k, v > k.
+var a8IntBits int64 = 64 // width of int in the configuration being analysed (set by the A8 rule)
+
 func excludesMin(v ssa.Value, blk *ssa.BasicBlock) bool {
 	root := func(x ssa.Value) ssa.Value {
 		for i := 0; i < 6; i++ {
@@ -1187,7 +1193,7 @@ func excludesMin(v ssa.Value, blk *ssa.BasicBlock) bool {
 		if k == math.MinInt64 {
 			return true
 		}
-		if b, ok := t.Underlying().(*types.Basic); ok && b.Kind() == types.Int32 {
+		if b, ok := t.Underlying().(*types.Basic); ok && (b.Kind() == types.Int32 || (b.Kind() == types.Int && a8IntBits == 32)) {
 			return k == math.MinInt32
 		}
 		return false
